@@ -214,14 +214,6 @@ func runORD12(p *Prog, r *RuleRun) {
 	if !checkWalAnchors(r, v, map[string]*ssa.Function{"Open": open, "StoreLogs": sl, "DeleteRange": dr, "rotation goroutine": rot}) {
 		return
 	}
-	isPostVal := func(val ssa.Value) bool {
-		ex, ok := val.(*ssa.Extract)
-		if !ok || ex.Index != 1 {
-			return false
-		}
-		c, ok := ex.Tuple.(*ssa.Call)
-		return ok && v.isTxnSig(c.Call.Signature())
-	}
 	spec := v.baseSpec("publish-after-commit")
 	spec.OnBranch = func(cx *Ctx, ifi *ssa.If, truth bool, f *Fact) {
 		bo, ok := ifi.Cond.(*ssa.BinOp)
@@ -229,7 +221,7 @@ func runORD12(p *Prog, r *RuleRun) {
 			return
 		}
 		c, isC := bo.Y.(*ssa.Const)
-		if !isPostVal(bo.X) || !isC || !c.IsNil() {
+		if !isC || !c.IsNil() || !v.isPostCommit(cx, bo.X, f) {
 			return
 		}
 		if (bo.Op == token.EQL) == truth {
